@@ -533,6 +533,7 @@ def r106(facts, res):
             continue
         # "was new" regions: blocks dominated by the true successor of a switch on the result of tokens.insert
         new_regions = []
+        untested = []
         for bb, t in b.calls():
             c = callee_of(t)
             if c is None or c['name'] not in ('insert', 'insert_full') or not (c.get('self_ty') or '').startswith('indexmap::set::IndexSet<alloc::string::String'):
@@ -540,6 +541,7 @@ def r106(facts, res):
             if 'tokens' not in field_names(t['args'][0]):
                 continue
             dest = t['dest']['l']
+            tested = False
             for sb in (b.reachable([t['ret']]) if t['ret'] is not None else []):
                 tt = b.term(sb)
                 if tt['k'] != 'switch':
@@ -550,7 +552,10 @@ def r106(facts, res):
                 rr, pj, vv = b.root(pl['l'], through=(), stop_named=False)
                 if rr == dest and b.dominates(bb, sb):
                     new_regions.append((bb, tt['otherwise']))
+                    tested = True
                     break
+            if not tested:
+                untested.append(bb)
         for pb, pt in pushes:
             n += 1
             key = 'span-push:%s@L%d' % (strip_generics(b.path).split('::')[-1], [x[0] for x in pushes].index(pb))
@@ -559,6 +564,10 @@ def r106(facts, res):
             else:
                 res.bad(R, key, loc_of(b, pb), 'a span is pushed onto the table parallel to the token set although no insertion into the token set reported a new token on '
                         'this path: the table gets one entry too many and every token that first appears later is given the span of earlier text')
+        for ib in untested:
+            res.bad(R, 'span-push-missing:%s@%d' % (strip_generics(b.path).split('::')[-1], ib), loc_of(b, ib), 'a name is inserted into the token set without looking at whether it was '
+                    'new, and no span is pushed for it: when it IS new the span table parallel to the token set ends up one entry short (index out of bounds when the grammar is built, or '
+                    'every later token carries its neighbour\'s span)')
         for ib, ts in new_regions:
             if not any(b.dominates(ts, pb) for pb, _pt in pushes):
                 res.bad(R, 'span-push-missing:%s@%d' % (strip_generics(b.path).split('::')[-1], ib), loc_of(b, ib), 'a new token is added to the token set but no span is pushed for it')
